@@ -214,9 +214,21 @@ def _read_relationships(env):
         def ref(v):
             return [v.id, v.transaction_id]
         aobs = []
+        problem = None
         for v in s.query(AV).all():
-            aobs.append(dict(key=v.id, tx=v.transaction_id, tags=sorted(ref(x) for x in v.tags),
+            tags = sorted(ref(x) for x in v.tags)
+            aobs.append(dict(key=v.id, tx=v.transaction_id, tags=tags,
                              labels=sorted(ref(x) for x in v.labels), notes=sorted(x.id for x in v.notes)))
+            if hasattr(AV, 'first_tag'):
+                # the scalar relationship over the same foreign key: one of the tags the collection shows (the
+                # collection itself is compared with the model), nothing when the collection is empty
+                import warnings
+                with warnings.catch_warnings():
+                    warnings.simplefilter('ignore')
+                    ft = v.first_tag
+                if (ft is None) != (not tags) or (ft is not None and ref(ft) not in tags):
+                    problem = problem or ('article version (%s, %s): first_tag is %r, tags are %r' % (
+                        v.id, v.transaction_id, None if ft is None else ref(ft), tags))
         tobs = []
         for v in s.query(TV).all():
             p = v.article
@@ -224,7 +236,7 @@ def _read_relationships(env):
         lobs = []
         for v in s.query(LV).all():
             lobs.append(dict(key=v.id, tx=v.transaction_id, articles=sorted(ref(x) for x in v.articles)))
-        return dict(aobs=aobs, tobs=tobs, lobs=lobs, exc=None)
+        return dict(aobs=aobs, tobs=tobs, lobs=lobs, exc=problem)
     except Exception as e:
         return dict(aobs=[], tobs=[], lobs=[], exc='%s: %s' % (type(e).__name__, str(e)[:300]))
     finally:
@@ -271,7 +283,7 @@ def _observe_history(env, cfg, case):
 
 def _worker(chunk):
     strategy, items = chunk
-    cfg = dict(shape='blog', strategy=strategy)
+    cfg = dict(shape='blog', strategy=strategy, one2one=True)
     out = []
     with E.Env(options=hist.options_for(cfg), plugins=[], build=hist.SHAPES['blog'](cfg)) as env:
         for idx, case in items:
